@@ -43,6 +43,19 @@ func (h *hist) exec(op Op) {
 			h.insertDuplicate(t, g, op)
 			return
 		}
+		if op.Miss && !t.Primary && len(t.Uniques) == 0 && len(t.rows) > 0 {
+			// a link table without unique key may hold the same link twice
+			row := own(t, t.rows[op.Pick%len(t.rows)])
+			name := t.Name + ".Insert"
+			_, err := h.call(name, h.mustFn(name), row, h.db())
+			h.note("%s(%s) -> err=%v (a second copy of a stored link)", name, show(row), err)
+			if h.faulted() || !h.judgeErr(name, err) {
+				return
+			}
+			t.rows = append(t.rows, row)
+			h.out.Keys = append(h.out.Keys, "@call:insert-same-link-twice/"+t.Name)
+			return
+		}
 		if t.Primary {
 			if !h.insertPrimary(t, g, 0) && h.viol == nil {
 				skip("no constraint-satisfying row")
@@ -720,6 +733,31 @@ func (h *hist) customQuery(t *tinfo, g *gen, op Op) {
 	// OR forms from either of the two compared columns)
 	nv := reflect.New(row.FieldByName(q.Set).Type()).Elem()
 	g.fillColumn(nv, t.Column(q.Set), false)
+	if q.Form == 3 {
+		// UPDATE t SET <Set> = $val$ WHERE <Where> = #[Enum.Const]
+		var want reflect.Value
+		for _, c := range h.prog.Enums[t.Column(q.Where).Enum] {
+			if fmt.Sprint(c) == q.WhereConst {
+				want = reflect.ValueOf(c)
+			}
+		}
+		if !want.IsValid() {
+			kernel.Harnessf("query %s: constant %q not found in enum %s", q.Name, q.WhereConst, t.Column(q.Where).Enum)
+		}
+		_, err := h.call(q.Name, f, h.db(), nv)
+		h.note("%s(%s) [where %s = %v] -> err=%v", q.Name, show(nv), q.Where, want.Interface(), err)
+		if h.faulted() || !h.judgeErr(q.Name, err) {
+			return
+		}
+		for _, r := range t.rows {
+			if equalish(r.FieldByName(q.Where), want.Convert(r.FieldByName(q.Where).Type())) {
+				r.FieldByName(q.Set).Set(nv)
+			}
+		}
+		h.out.Keys = append(h.out.Keys, fmt.Sprintf("@call:query3/%s", t.Name))
+		h.checkOne(t)
+		return
+	}
 	sel := cp(row.FieldByName(q.Where))
 	if q.Form >= 1 && g.r.Bool() {
 		sel = cp(row.FieldByName(q.Where2))
